@@ -3,6 +3,8 @@
    property states: k <= 6, n <= 12, lattices up to 6 x 6; targets: every complex on <= 3 points. *)
 From Coq Require Import String ZArith Bool Arith List.
 From SV Require Import Names Rep Complex Homology Filtration Gen World Small Sweeps VInv AwbSpec VSets GenSets.
+From SV Require Import Counts.
+
 
 (* k_simplex(k): C(k+1, j+1) simplices of order j, Betti 1,0,..,0, top simplex named as asked;
    k_void(k): all proper faces of a (k+1)-simplex, a k-sphere; k_skeleton(k): k+1 points and all
@@ -50,3 +52,15 @@ Theorem C18_k_void_vertex_sets :
         (exists t, containsSimplex r t = true /\ sameset (basisOf r t) B) \/ (incl B new /\ ~ incl new B))).
 Proof. exact k_void_vertex_sets. Qed.
 Print Assumptions C18_k_void_vertex_sets.
+
+(* EVERY k, EVERY TARGET THAT MEETS THE VERTEX-SET READING: the counts are the binomials *)
+Theorem C18_k_simplex_counts :
+  forall k id attr r r', vinv r -> 1 <= k -> k_simplex k id attr r = (r', Ok tt) ->
+  forall j, length (simplicesOfOrder r' j) = length (simplicesOfOrder r j) + binom (S k) (S j).
+Proof. exact k_simplex_counts. Qed.
+Print Assumptions C18_k_simplex_counts.
+Theorem C18_k_void_counts :
+  forall k r r', vinv r -> k_void k r = (r', Ok tt) ->
+  forall j, length (simplicesOfOrder r' j) = length (simplicesOfOrder r j) + (if j <=? k then binom (S (S k)) (S j) else 0).
+Proof. exact k_void_counts. Qed.
+Print Assumptions C18_k_void_counts.
